@@ -97,8 +97,8 @@ PROPS = {
                 rule="every program of the slice grammars (base facts + 1-3 clauses whose bodies combine calls, =, ==, conjunction, disjunction, nested and/or; the recursive list programs; the aliasing programs) x queries, each asked until 'no more'; "
                      "TLC checks that the solution-node machine of Solver.tla refines the declarative search of SLD.tla (Refines) and the real engine must observe the same answers in the same order; solve_all must report them as `$Var = value`",
                 assumptions=["programs whose reference search exceeds the call-depth budget or needs an occurs check are outside the claim (counted under excluded_cases)"]),
-    "C02": dict(jobs=["solver-cut", "trace-solver"], level="model_checking",
-                rule="`!` at every position of 2-3 literal conjunctions, disjunctions and their nestings, before/after succeeding, failing, multi-answer and printing goals, in a called predicate, with later clauses that succeed / fail / print, and under a caller; TLC checks CutCommits, NoRetryLeftOfCut, CutIsLocal and Refines on the machine",
+    "C02": dict(jobs=["solver-cut", "trace-solver", "interleave"], level="model_checking",
+                rule="(interleave: queries over predicates without variables whose clauses cut -- `pz :- !, r0.` with two r0, `pw :- (a0, c0), !, b0.`, a cut in a later alternative -- asked in every interleaving while a third query is built before every request) `!` at every position of 2-3 literal conjunctions, disjunctions and their nestings, before/after succeeding, failing, multi-answer and printing goals, in a called predicate, with later clauses that succeed / fail / print, and under a caller; TLC checks CutCommits, NoRetryLeftOfCut, CutIsLocal and Refines on the machine",
                 assumptions=["cut inside not(...) / time(...) is excluded, as the property states"]),
     "C03": dict(jobs=["solver-not", "trace-solver"], level="model_checking",
                 rule="not(...) around calls, conjunctions, disjunctions, unifications, comparisons, printing goals and another not, alone / after / before generators / in a disjunction, x queries with unbound and ground arguments",
@@ -158,8 +158,8 @@ PROPS = {
                 rule="(interleave: two searches alive at the same time -- both queries built first, then every interleaving of their requests over a knowledge base with rule bodies that run out on re-entry and facts with variables of their own; Interleave.tla is the product of two single-search machines, every reply must be what that search observes alone; the solver slices also ask the same query twice in turn) every vector of 1-3 terms (clause-shaped: shared and distinct variable names, $_, empty / nested lists, tails, function terms) renamed from two counter values; plus every term pair of the unifier slice renamed and unified",
                 assumptions=["freshness in the middle of a search: after every replayed query each clause of the program is fetched with get_rule() one after the other; "
                              "and in every recorded run each head unification must have taken at least one fresh id per variable name of its clause (the engine's own counter, logged by the resolve hook)"]),
-    "C16": dict(jobs=["bip-append", "trace-bip"], level="model_checking",
-                rule="append with 1-4 inputs from a universe of atoms, numbers, complex terms, bound variables, lists with nested / empty-list elements and bound tails, x 3 priors x several Out shapes",
+    "C16": dict(jobs=["bip-append", "trace-bip", "solver-lists"], level="model_checking",
+                rule="(solver-lists: append as a goal of a clause body, its list arguments renamed with the clause -- a variable only inside a nested list, a nested list with a tail variable) append with 1-4 inputs from a universe of atoms, numbers, complex terms, bound variables, lists with nested / empty-list elements and bound tails, x 3 priors x several Out shapes",
                 assumptions=["unbound-variable inputs and lists with an unbound tail are outside the claim and excluded"]),
     "C17": dict(jobs=["bip-count", "bip-filter", "bip-functor", "unify-fn", "trace-bip"], level="model_checking",
                 rule="count / include / exclude / functor calls over the list, pattern and complex-term universes of MC_Builtins x priors, and join(...) function terms of the fn slice",
